@@ -33,7 +33,7 @@ def gen_scenario(rng, shard_no, slot, index):
     from vlib.common import ports
     block, base = ports.acquire()
     hid = f"d{block:03x}"
-    hosts = [{"id": f"{hid}{h}", "maddress": f"tcp://localhost:{base + 1 + h * 10}", "daddress": f"tcp://localhost:{base + 2 + h * 10}", "shm_port": base + 3 + h * 10} for h in range(nh)]
+    hosts = [{"id": f"{hid}{h}", "index": h, "maddress": f"tcp://localhost:{base + 1 + h * 10}", "daddress": f"tcp://localhost:{base + 2 + h * 10}", "shm_port": base + 3 + h * 10} for h in range(nh)]
     ids = [h["id"] for h in hosts]
     plan_class = rng.choice(["none", "loss", "loss", "dup", "delay", "mixed", "mixed"])
     plan = {"p_drop_payload": 0.0, "p_dup_payload": 0.0, "p_delay": 0.0, "p_drop_ack": 0.0, "p_dup_ack": 0.0}
